@@ -1,5 +1,8 @@
 import FeatModel.Lemmas.C05Serialize
 import FeatModel.Lemmas.C05Checkpoint
+import FeatModel.Lemmas.C05TextCsr
+import FeatModel.Lemmas.C05TextVec
+import FeatModel.Lemmas.C05Kinds
 /-!
 # C05 — persisted containers read back equal to what was written (binary container format)
 
@@ -10,7 +13,7 @@ The theorems are about `FeatModel.Ser.serialize / deserialize / convert`, the fu
 The checkpoint theorems are about `cpSave / cpLoad / cpIndex / cpRestore` (the functions behind the driver's
 `cp` / `cpx` ops).  Text modes: see the end of this file.
 -/
-open FeatModel.Ser
+open FeatModel.Ser FeatModel.TextIO
 
 /-- No write of `_serialize` leaves the `_serialized_size()` buffer, the final `resize(raw_size + 16)` cuts
     no data, and the result has exactly `raw_size + 16 ≤ _serialized_size()` bytes — for every number of
@@ -33,6 +36,21 @@ theorem C05.serialize_layout (t : Tag) (sDT sIT : Nat) (c : Container)
       ∧ offDt sDT c + sDT * (dtWords c).length + z2 = offIt sDT sIT c
       ∧ offIt sDT sIT c + sIT * (itWords c).length + z3 = rawSize sDT sIT c + 16 :=
   serialize_closed t sDT sIT c hD hI
+
+/-- The alignment gaps are smaller than one word of the following block and use at most 12 of the 16 padding
+    bytes: the image always ends in at least 4 zero bytes, and an odd number of `float` words before a `uint64`
+    index block is followed by exactly the 4 bytes the ceil-division skips. -/
+theorem C05.serialize_gaps (t : Tag) (sDT sIT : Nat) (c : Container)
+    (hD : sDT = 4 ∨ sDT = 8 ∨ sDT = 16) (hI : sIT = 4 ∨ sIT = 8) :
+    ∃ z1 z2 z3 : Nat,
+      serialize t sDT sIT c = some (wordsBytes 8 (u64Words t sDT sIT c) ++ List.replicate z1 0
+        ++ wordsBytes sDT (dtWords c) ++ List.replicate z2 0 ++ wordsBytes sIT (itWords c) ++ List.replicate z3 0)
+      ∧ z1 + z2 + z3 = 16 ∧ z1 < sDT ∧ z2 < sIT ∧ 4 ≤ z3
+      ∧ (8 * nWords c + z1) % sDT = 0 ∧ (8 * nWords c + z1 + sDT * (dtWords c).length + z2) % sIT = 0 := by
+  obtain ⟨z1, z2, z3, h, h1, h2, h3⟩ := serialize_closed t sDT sIT c hD hI
+  refine ⟨z1, z2, z3, h, ?_⟩
+  rcases hD with rfl | rfl | rfl <;> rcases hI with rfl | rfl <;>
+    simp only [offDt, offIt, ceilDiv, rawSize] at h1 h2 h3 <;> omega
 
 /-- **Round trip.** Deserialising what was serialised gives back the same container — same scalars, the same
     number of arrays, the same sizes, bit-identical contents — for all array counts and sizes, at every
@@ -160,3 +178,205 @@ theorem C05.checkpoint_containers (t : Tag) (cs : List (Bytes × Container))
   rw [hr]
   obtain ⟨b, hb, hd⟩ := C05.roundtrip_total t 8 8 o.2 (by simp) (by simp) (hwfc o ho)
   simp [hb, hd]
+
+/-- `DistFileIO::write_combined` then `read_combined` for one process (the file behind
+    `CheckpointControl::save/load(filename)`): shared data and buffer come back byte for byte; an empty part leaves
+    the caller's vector untouched. -/
+theorem C05.dist_file_roundtrip (s b s0 b0 : Bytes) (h : 40 + b.length + s.length < 256 ^ 8) :
+    dfRead (dfWrite s b) s0 b0 = some (if s.length > 0 then s else s0, if b.length > 0 then b else b0) :=
+  dfRead_dfWrite s b s0 b0 h
+
+/-! ## every container kind in the typed binary round trip
+
+`write_out<DT2_, IT2_>` / `serialize<DT2_, IT2_>()` then read back and convert to the memory types gives the
+original container, for every kind the harness runs; the hypotheses are the natural size bounds (everything fits
+into 64 bits) and representability of the values in the file types. -/
+
+/-- generic form: any container whose sizes fit into 64 bits -/
+theorem C05.typed_roundtrip_bounds (t : Tag) (sDT sIT : Nat) (cvD cvI bkD bkI : Nat → Nat) (c : Container)
+    (hD : sDT = 4 ∨ sDT = 8 ∨ sDT = 16) (hI : sIT = 4 ∨ sIT = 8)
+    (ht : t.magic < 256 ^ 8 ∧ t.hashDT < 256 ^ 8 ∧ t.hashIT < 256 ^ 8)
+    (hraw : rawSize sDT sIT c + 16 < 256 ^ 8) (hsi : ∀ v ∈ c.scalarIndex, v < 256 ^ 8)
+    (hcD : ∀ x, cvD x < 256 ^ sDT) (hcI : ∀ x, cvI x < 256 ^ sIT)
+    (h1 : ∀ v ∈ c.scalarDt, bkD (cvD v) = v) (h2 : ∀ a ∈ c.elements, ∀ v ∈ a, bkD (cvD v) = v)
+    (h3 : ∀ a ∈ c.indices, ∀ v ∈ a, bkI (cvI v) = v) :
+    ∃ b, serialize t sDT sIT (convert cvD cvI c) = some b ∧
+      (deserialize t.magic sDT sIT b).map (convert bkD bkI) = some c :=
+  C05.typed_roundtrip t sDT sIT cvD cvI bkD bkI c hD hI
+    (WF_convert t sDT sIT cvD cvI c (by omega) (by omega) ht hraw hsi hcD hcI) h1 h2 h3
+
+theorem C05.dv_roundtrip (t : Tag) (sDT sIT : Nat) (cvD cvI bkD bkI : Nat → Nat) (vals : List Nat)
+    (hD : sDT = 4 ∨ sDT = 8 ∨ sDT = 16) (hI : sIT = 4 ∨ sIT = 8)
+    (ht : t.magic < 256 ^ 8 ∧ t.hashDT < 256 ^ 8 ∧ t.hashIT < 256 ^ 8)
+    (hraw : rawSize sDT sIT (dvLayout vals) + 16 < 256 ^ 8) (h0 : vals.length < 256 ^ 8)
+    (hcD : ∀ x, cvD x < 256 ^ sDT) (hcI : ∀ x, cvI x < 256 ^ sIT)
+    (hr1 : ∀ a ∈ (dvLayout vals).elements, ∀ v ∈ a, bkD (cvD v) = v)
+    (hr2 : ∀ a ∈ (dvLayout vals).indices, ∀ v ∈ a, bkI (cvI v) = v) :
+    ∃ b, serialize t sDT sIT (convert cvD cvI (dvLayout vals)) = some b ∧
+      (deserialize t.magic sDT sIT b).map (convert bkD bkI) = some (dvLayout vals) :=
+  C05.typed_roundtrip t sDT sIT cvD cvI bkD bkI _ hD hI
+    (dv_image_wf t sDT sIT cvD cvI vals (by omega) (by omega) ht hraw h0 hcD hcI)
+    (by unfold dvLayout; repeat' split
+        all_goals simp) hr1 hr2
+
+theorem C05.dvb_roundtrip (t : Tag) (sDT sIT : Nat) (cvD cvI bkD bkI : Nat → Nat) (bs : Nat) (vals : List Nat)
+    (hD : sDT = 4 ∨ sDT = 8 ∨ sDT = 16) (hI : sIT = 4 ∨ sIT = 8)
+    (ht : t.magic < 256 ^ 8 ∧ t.hashDT < 256 ^ 8 ∧ t.hashIT < 256 ^ 8)
+    (hraw : rawSize sDT sIT (dvbLayout bs vals) + 16 < 256 ^ 8) (h0 : vals.length / bs < 256 ^ 8)
+    (hcD : ∀ x, cvD x < 256 ^ sDT) (hcI : ∀ x, cvI x < 256 ^ sIT)
+    (hr1 : ∀ a ∈ (dvbLayout bs vals).elements, ∀ v ∈ a, bkD (cvD v) = v)
+    (hr2 : ∀ a ∈ (dvbLayout bs vals).indices, ∀ v ∈ a, bkI (cvI v) = v) :
+    ∃ b, serialize t sDT sIT (convert cvD cvI (dvbLayout bs vals)) = some b ∧
+      (deserialize t.magic sDT sIT b).map (convert bkD bkI) = some (dvbLayout bs vals) :=
+  C05.typed_roundtrip t sDT sIT cvD cvI bkD bkI _ hD hI
+    (dvb_image_wf t sDT sIT cvD cvI bs vals (by omega) (by omega) ht hraw h0 hcD hcI)
+    (by unfold dvbLayout; repeat' split
+        all_goals simp) hr1 hr2
+
+theorem C05.sv_roundtrip (t : Tag) (sDT sIT : Nat) (cvD cvI bkD bkI : Nat → Nat) (size : Nat) (idx vals : List Nat)
+    (hD : sDT = 4 ∨ sDT = 8 ∨ sDT = 16) (hI : sIT = 4 ∨ sIT = 8)
+    (ht : t.magic < 256 ^ 8 ∧ t.hashDT < 256 ^ 8 ∧ t.hashIT < 256 ^ 8)
+    (hraw : rawSize sDT sIT (svLayout size idx vals) + 16 < 256 ^ 8) (h0 : size < 256 ^ 8) (h1 : vals.length < 256 ^ 8)
+    (hcD : ∀ x, cvD x < 256 ^ sDT) (hcI : ∀ x, cvI x < 256 ^ sIT)
+    (hr1 : ∀ a ∈ (svLayout size idx vals).elements, ∀ v ∈ a, bkD (cvD v) = v)
+    (hr2 : ∀ a ∈ (svLayout size idx vals).indices, ∀ v ∈ a, bkI (cvI v) = v) :
+    ∃ b, serialize t sDT sIT (convert cvD cvI (svLayout size idx vals)) = some b ∧
+      (deserialize t.magic sDT sIT b).map (convert bkD bkI) = some (svLayout size idx vals) :=
+  C05.typed_roundtrip t sDT sIT cvD cvI bkD bkI _ hD hI
+    (sv_image_wf t sDT sIT cvD cvI size idx vals (by omega) (by omega) ht hraw h0 h1 hcD hcI)
+    (by unfold svLayout; repeat' split
+        all_goals simp) hr1 hr2
+
+theorem C05.dm_roundtrip (t : Tag) (sDT sIT : Nat) (cvD cvI bkD bkI : Nat → Nat) (r c : Nat) (vals : List Nat)
+    (hD : sDT = 4 ∨ sDT = 8 ∨ sDT = 16) (hI : sIT = 4 ∨ sIT = 8)
+    (ht : t.magic < 256 ^ 8 ∧ t.hashDT < 256 ^ 8 ∧ t.hashIT < 256 ^ 8)
+    (hraw : rawSize sDT sIT (dmLayout r c vals) + 16 < 256 ^ 8) (h0 : r * c < 256 ^ 8) (h1 : r < 256 ^ 8) (h2 : c < 256 ^ 8)
+    (hcD : ∀ x, cvD x < 256 ^ sDT) (hcI : ∀ x, cvI x < 256 ^ sIT)
+    (hr1 : ∀ a ∈ (dmLayout r c vals).elements, ∀ v ∈ a, bkD (cvD v) = v)
+    (hr2 : ∀ a ∈ (dmLayout r c vals).indices, ∀ v ∈ a, bkI (cvI v) = v) :
+    ∃ b, serialize t sDT sIT (convert cvD cvI (dmLayout r c vals)) = some b ∧
+      (deserialize t.magic sDT sIT b).map (convert bkD bkI) = some (dmLayout r c vals) :=
+  C05.typed_roundtrip t sDT sIT cvD cvI bkD bkI _ hD hI
+    (dm_image_wf t sDT sIT cvD cvI r c vals (by omega) (by omega) ht hraw h0 h1 h2 hcD hcI)
+    (by unfold dmLayout; repeat' split
+        all_goals simp) hr1 hr2
+
+theorem C05.csr_roundtrip (t : Tag) (sDT sIT : Nat) (cvD cvI bkD bkI : Nat → Nat) (variant : Nat) (m : Csr)
+    (hD : sDT = 4 ∨ sDT = 8 ∨ sDT = 16) (hI : sIT = 4 ∨ sIT = 8)
+    (ht : t.magic < 256 ^ 8 ∧ t.hashDT < 256 ^ 8 ∧ t.hashIT < 256 ^ 8)
+    (hraw : rawSize sDT sIT (csrLayout variant m) + 16 < 256 ^ 8) (h0 : m.rows * m.cols < 256 ^ 8) (h1 : m.rows < 256 ^ 8) (h2 : m.cols < 256 ^ 8) (h3 : m.vals.length < 256 ^ 8)
+    (hcD : ∀ x, cvD x < 256 ^ sDT) (hcI : ∀ x, cvI x < 256 ^ sIT)
+    (hr1 : ∀ a ∈ (csrLayout variant m).elements, ∀ v ∈ a, bkD (cvD v) = v)
+    (hr2 : ∀ a ∈ (csrLayout variant m).indices, ∀ v ∈ a, bkI (cvI v) = v) :
+    ∃ b, serialize t sDT sIT (convert cvD cvI (csrLayout variant m)) = some b ∧
+      (deserialize t.magic sDT sIT b).map (convert bkD bkI) = some (csrLayout variant m) :=
+  C05.typed_roundtrip t sDT sIT cvD cvI bkD bkI _ hD hI
+    (csr_image_wf t sDT sIT cvD cvI variant m (by omega) (by omega) ht hraw h0 h1 h2 h3 hcD hcI)
+    (by unfold csrLayout; repeat' split
+        all_goals simp) hr1 hr2
+
+theorem C05.bcsr_roundtrip (t : Tag) (sDT sIT : Nat) (cvD cvI bkD bkI : Nat → Nat) (bh bw r c : Nat) (rowPtr colInd vals : List Nat)
+    (hD : sDT = 4 ∨ sDT = 8 ∨ sDT = 16) (hI : sIT = 4 ∨ sIT = 8)
+    (ht : t.magic < 256 ^ 8 ∧ t.hashDT < 256 ^ 8 ∧ t.hashIT < 256 ^ 8)
+    (hraw : rawSize sDT sIT (bcsrLayout bh bw r c rowPtr colInd vals) + 16 < 256 ^ 8) (h0 : r * c < 256 ^ 8) (h1 : r < 256 ^ 8) (h2 : c < 256 ^ 8) (h3 : vals.length / (bh * bw) < 256 ^ 8)
+    (hcD : ∀ x, cvD x < 256 ^ sDT) (hcI : ∀ x, cvI x < 256 ^ sIT)
+    (hr1 : ∀ a ∈ (bcsrLayout bh bw r c rowPtr colInd vals).elements, ∀ v ∈ a, bkD (cvD v) = v)
+    (hr2 : ∀ a ∈ (bcsrLayout bh bw r c rowPtr colInd vals).indices, ∀ v ∈ a, bkI (cvI v) = v) :
+    ∃ b, serialize t sDT sIT (convert cvD cvI (bcsrLayout bh bw r c rowPtr colInd vals)) = some b ∧
+      (deserialize t.magic sDT sIT b).map (convert bkD bkI) = some (bcsrLayout bh bw r c rowPtr colInd vals) :=
+  C05.typed_roundtrip t sDT sIT cvD cvI bkD bkI _ hD hI
+    (bcsr_image_wf t sDT sIT cvD cvI bh bw r c rowPtr colInd vals (by omega) (by omega) ht hraw h0 h1 h2 h3 hcD hcI)
+    (by unfold bcsrLayout; repeat' split
+        all_goals simp) hr1 hr2
+
+theorem C05.banded_roundtrip (t : Tag) (sDT sIT : Nat) (cvD cvI bkD bkI : Nat → Nat) (r c : Nat) (offs vals : List Nat)
+    (hD : sDT = 4 ∨ sDT = 8 ∨ sDT = 16) (hI : sIT = 4 ∨ sIT = 8)
+    (ht : t.magic < 256 ^ 8 ∧ t.hashDT < 256 ^ 8 ∧ t.hashIT < 256 ^ 8)
+    (hraw : rawSize sDT sIT (bmLayout r c offs vals) + 16 < 256 ^ 8) (h0 : r * c < 256 ^ 8) (h1 : r < 256 ^ 8) (h2 : c < 256 ^ 8) (h3 : bandedUsed r c offs < 256 ^ 8) (h4 : offs.length < 256 ^ 8)
+    (hcD : ∀ x, cvD x < 256 ^ sDT) (hcI : ∀ x, cvI x < 256 ^ sIT)
+    (hr1 : ∀ a ∈ (bmLayout r c offs vals).elements, ∀ v ∈ a, bkD (cvD v) = v)
+    (hr2 : ∀ a ∈ (bmLayout r c offs vals).indices, ∀ v ∈ a, bkI (cvI v) = v) :
+    ∃ b, serialize t sDT sIT (convert cvD cvI (bmLayout r c offs vals)) = some b ∧
+      (deserialize t.magic sDT sIT b).map (convert bkD bkI) = some (bmLayout r c offs vals) :=
+  C05.typed_roundtrip t sDT sIT cvD cvI bkD bkI _ hD hI
+    (bm_image_wf t sDT sIT cvD cvI r c offs vals (by omega) (by omega) ht hraw h0 h1 h2 h3 h4 hcD hcI)
+    (by unfold bmLayout; repeat' split
+        all_goals simp) hr1 hr2
+
+theorem C05.cscr_roundtrip (t : Tag) (sDT sIT : Nat) (cvD cvI bkD bkI : Nat → Nat) (r c : Nat) (rowPtr colInd vals rowNum : List Nat)
+    (hD : sDT = 4 ∨ sDT = 8 ∨ sDT = 16) (hI : sIT = 4 ∨ sIT = 8)
+    (ht : t.magic < 256 ^ 8 ∧ t.hashDT < 256 ^ 8 ∧ t.hashIT < 256 ^ 8)
+    (hraw : rawSize sDT sIT (cscrLayout r c rowPtr colInd vals rowNum) + 16 < 256 ^ 8) (h0 : r * c < 256 ^ 8) (h1 : r < 256 ^ 8) (h2 : c < 256 ^ 8) (h3 : vals.length < 256 ^ 8) (h4 : rowNum.length < 256 ^ 8)
+    (hcD : ∀ x, cvD x < 256 ^ sDT) (hcI : ∀ x, cvI x < 256 ^ sIT)
+    (hr1 : ∀ a ∈ (cscrLayout r c rowPtr colInd vals rowNum).elements, ∀ v ∈ a, bkD (cvD v) = v)
+    (hr2 : ∀ a ∈ (cscrLayout r c rowPtr colInd vals rowNum).indices, ∀ v ∈ a, bkI (cvI v) = v) :
+    ∃ b, serialize t sDT sIT (convert cvD cvI (cscrLayout r c rowPtr colInd vals rowNum)) = some b ∧
+      (deserialize t.magic sDT sIT b).map (convert bkD bkI) = some (cscrLayout r c rowPtr colInd vals rowNum) :=
+  C05.typed_roundtrip t sDT sIT cvD cvI bkD bkI _ hD hI
+    (cscr_image_wf t sDT sIT cvD cvI r c rowPtr colInd vals rowNum (by omega) (by omega) ht hraw h0 h1 h2 h3 h4 hcD hcI)
+    (by unfold cscrLayout; repeat' split
+        all_goals simp) hr1 hr2
+
+/-! ## text modes
+
+`pr` (number printing: `operator<<` scientific) and `rd` (`atof`) are parameters; the only assumptions about them
+are that a printed number contains no blank (and no `#` for `fm_exp`).  Integer printing/parsing (`operator<<`,
+`atol`), the tokenisation of the lines, the header handling and the assembly of the arrays are proved. -/
+
+/-- **MatrixMarket round trip of `SparseMatrixCSR`.** For every well-formed CSR matrix — empty rows anywhere,
+    no entries at all, any rectangular shape — reading what was written gives the same dimensions, the same
+    `row_ptr` (empty rows kept), the same `col_ind`, and the values `rd (pr v)`. -/
+theorem C05.mtx_roundtrip_csr {α : Type} (pr : α → String) (rd : String → α)
+    (hp : ∀ v, NoBlank (pr v).toList) (rows cols : Nat) (rowPtr ci : List Nat) (vs : List α) (d : α)
+    (h : CsrWF rows rowPtr ci vs d) :
+    csrMtxRead rd (csrMtxWrite pr rows cols rowPtr ci vs d)
+      = some (rows, cols, vs.length, rowPtr, ci, vs.map fun v => rd (pr v)) :=
+  csr_mtx_roundtrip pr rd hp rows cols rowPtr ci vs d h
+
+/-- the same with the trusted assumption in the form `rd (pr x) = round x`: values equal to printed precision,
+    dimensions and pattern identical -/
+theorem C05.mtx_roundtrip_csr_rounded {α : Type} (pr : α → String) (rd : String → α) (round : α → α)
+    (hp : ∀ v, NoBlank (pr v).toList) (hr : ∀ x, rd (pr x) = round x)
+    (rows cols : Nat) (rowPtr ci : List Nat) (vs : List α) (d : α) (h : CsrWF rows rowPtr ci vs d) :
+    csrMtxRead rd (csrMtxWrite pr rows cols rowPtr ci vs d)
+      = some (rows, cols, vs.length, rowPtr, ci, vs.map round) := by
+  rw [csr_mtx_roundtrip pr rd hp rows cols rowPtr ci vs d h]
+  simp [hr]
+
+/-- the structural core on its own: assembling (`std::map` of `std::map`s, then the row loop) the entries that
+    the writer's index loops enumerate gives the CSR arrays back -/
+theorem C05.csr_assemble_entries {α : Type} (R : List (Row α)) (hs : ∀ row ∈ R, StrictCols row) (d : α) :
+    csrAssemble R.length (csrEntries R.length (ptrs 0 R) (colsOf R) (valsOf R) d)
+      = (ptrs 0 R, colsOf R, valsOf R) := by
+  rw [csrEntries_rows]
+  exact csrAssemble_entsFrom R hs
+
+theorem C05.mtx_roundtrip_dense_vector {α : Type} (pr : α → String) (rd : String → α)
+    (hp : ∀ v, NoBlank (pr v).toList) (vals : List α) :
+    dvMtxRead rd (dvMtxWrite pr vals) = some (vals.map fun v => rd (pr v)) :=
+  dv_mtx_roundtrip pr rd hp vals
+
+theorem C05.exp_roundtrip_dense_vector {α : Type} (pr : α → String) (rd : String → α)
+    (hp : ∀ v, NoBlank (pr v).toList) (hh : ∀ v, (pr v).toList.contains '#' = false) (vals : List α) :
+    expRead rd (expWrite pr vals) = vals.map fun v => rd (pr v) :=
+  exp_roundtrip pr rd hp hh vals
+
+theorem C05.mtx_roundtrip_dense_matrix {α : Type} (pr : α → String) (rd : String → α)
+    (hp : ∀ v, NoBlank (pr v).toList) (r c : Nat) (vals : List α) (hr : r ≠ 0) (hc : c ≠ 0)
+    (hl : vals.length = r * c) :
+    dmMtxRead rd (dmMtxWrite pr r c vals) = some (r, c, vals.map fun v => rd (pr v)) :=
+  dm_mtx_roundtrip pr rd hp r c vals hr hc hl
+
+theorem C05.mtx_roundtrip_sparse_vector {α : Type} (pr : α → String) (rd : String → α)
+    (hp : ∀ v, NoBlank (pr v).toList) (size : Nat) (idx : List Nat) (vals : List α)
+    (hl : idx.length = vals.length) :
+    svMtxRead rd (svMtxWrite pr size idx vals) = some (size, idx, vals.map fun v => rd (pr v)) :=
+  sv_mtx_roundtrip pr rd hp size idx vals hl
+
+/-- the hypotheses are satisfiable: a 3×4 matrix with an empty middle row is well formed, and printing natural
+    numbers in decimal satisfies the assumption on `pr` -/
+example : CsrWF 3 [0, 2, 2, 3] [0, 3, 1] [5, 6, 7] (0 : Nat) := by
+  unfold CsrWF StrictCols
+  decide
+
+example : ∀ v : Nat, NoBlank (toString v).toList := fun v => noBlank_natChars v
